@@ -76,7 +76,7 @@ def block_bytes(data, idx, bs):
     return b
 
 
-def check(arr, store, content_bytes=None, exempt_pos=(), exempt_parity=(), check_rep_hash=True, levels=None):
+def check(arr, store, content_bytes=None, exempt_pos=(), exempt_parity=(), check_rep_hash=False, levels=None):
     """returns (problems, stats).  problems = list of strings (empty when the oracle holds)."""
     stats = {"stripes_checked": 0, "blocks_hashed": 0, "synced_positions": 0, "unknown_versions": 0}
     if content_bytes is None:
@@ -103,7 +103,9 @@ def check(arr, store, content_bytes=None, exempt_pos=(), exempt_parity=(), check
             if len(f.blocks) != want:
                 problems.append("file %r has %d blocks, size %d needs %d" % (f.sub, len(f.blocks), f.size, want))
 
-    # (ii) hashes of BLK (and REP) blocks equal the hash of the recorded version
+    # (ii) hashes of BLK blocks equal the hash of the recorded version.  The hash of a copy-detected (REP) block is provisional:
+    # it is the hash of the file the block was taken for a copy of, and may legitimately differ from the bytes (a decoy the tool
+    # refuses with 'Unexpected data change' stays in that state); it is judged only on request (check_rep_hash)
     versions = {}
     for name, d in c.disks.items():
         dn = name.decode()
